@@ -2,11 +2,11 @@ SPECIFICATION Spec
 CONSTANTS
   MaxH = 2
   MaxRestarts = 2
-  FullNode = FALSE
+  FullNode = TRUE
   Cap = 2
   Weaken = "none"
-  Direct = FALSE
-  Timeouts = FALSE
+  Direct = TRUE
+  Timeouts = TRUE
 INVARIANT ContainerOK
 INVARIANT TopIsHeight
 INVARIANT StorageShape
